@@ -121,3 +121,32 @@ def C04(ctx):
 
 
 PROPS["C04"] = C04
+
+
+def C18(ctx):
+    t = "quick" if ctx.quick else "thorough"
+    ctx.rule = ("names = every concatenation of <= 5/6 tokens over {a n b nb 1 2 - .}; PkgName, the Summary accessors "
+                "and the matcher's split compared with the specification; random names (non-ASCII, several '-', 'nb' in "
+                "the base, up to 18-digit revisions) with probe patterns pinning the revision the comparison uses; "
+                "non-trivial = name with a '-' and a revision")
+    ctx.assumptions = ["the reported revision is judged only for versions without any 'nb' (none) and versions ending in "
+                       "nb<digits> (that number); elsewhere only totality"]
+    ctx.emit_replay("MC_Names", "MC_Names.pkgname.%s.cfg" % t, "pkgname-enum")
+    ctx.exhaustive = True
+    ctx.record_validate("pkgname", q(ctx, 20000, 200000), "Tr_Names", "Tr_Names.cfg")
+
+
+def C19(ctx):
+    t = "quick" if ctx.quick else "thorough"
+    ctx.rule = ("paths = every sequence of <= 4/6 segments over {.. . a b empty} with/without leading and trailing '/'; "
+                "dependency strings = every x:y:.. of <= 3/4 parts over valid/invalid patterns and paths; accept/reject, "
+                "both accessors (component-wise), equality of both spellings and the re-parse fixpoint compared; random "
+                "segment strings with long/Unicode names; non-trivial = accepted input")
+    ctx.emit_replay("MC_Names", "MC_Names.pkgpath.%s.cfg" % t, "pkgpath-enum")
+    ctx.emit_replay("MC_Names", "MC_Names.depend.%s.cfg" % t, "depend-enum")
+    ctx.exhaustive = True
+    ctx.record_validate("pkgpath", q(ctx, 20000, 200000), "Tr_Names", "Tr_Names.cfg", name="pkgpath")
+    ctx.record_validate("depend", q(ctx, 10000, 100000), "Tr_Names", "Tr_Names.cfg", name="depend")
+
+
+PROPS.update({"C18": C18, "C19": C19})
